@@ -63,9 +63,10 @@ theorem numericOfInt_ext4_nat {z : Nat} (h : z ≤ 65535) :
   have : ¬ ((z : Int) < 0) := by omega
   simp [this]
 
-theorem addrOther_reloc {D : Nat} {as as' : List Stmt} (h : PW (AddrShiftI D) as as') (v : Value) :
-    addrOther as' v = (addrOther as v).map (fun x => if v.isAddress then x + (D : Int) else x) := by
-  unfold addrOther
+/-- one operand of a label expression in the moved layout: a label's address is `D` higher, a number is the same -/
+theorem addrOperand_reloc {D : Nat} {as as' : List Stmt} (h : PW (AddrShiftI D) as as') (v : Value) :
+    addrOperand as' v = (addrOperand as v).map (fun x => if v.isAddress then x + (D : Int) else x) := by
+  unfold addrOperand
   by_cases hA : v.isAddress = true
   · simp only [hA, if_true]
     cases v.int? with
@@ -81,30 +82,39 @@ theorem addrOther_reloc {D : Nat} {as as' : List Stmt} (h : PW (AddrShiftI D) as
     · cases v.int? <;> rfl
     · rfl
 
+theorem addrOperand_numeric_signed (ss : List Stmt) (k : Nat) (h : Option Nat) (m : Mode) (n : Bool) :
+    addrOperand ss (.numeric k h m n) = .ok (signedK k n) := rfl
 
-theorem addrOther_numeric_signed (ss : List Stmt) (k : Nat) (h : Option Nat) (m : Mode) (n : Bool) :
-    addrOther ss (.numeric k h m n) = .ok (signedK k n) := rfl
+/-- the last step of `calculate_address_offset` (repair batch B3): a result `z` below zero is reduced modulo `$10000`,
+one above `$FFFF` is rejected; in closed form, the value is `z mod $10000` whenever `z ≤ $FFFF` -/
+theorem wrapNumeric (z : Int) :
+    (match numericOfInt (if z < 0 then z % 65536 else z) (some 4) .extended with
+     | .ok nv => Outcome.ok nv | .error _ => .diag)
+      = if z ≤ 65535 then .ok (.numeric (z % 65536).toNat (some 4) .extended false) else .diag := by
+  by_cases h : z ≤ 65535
+  · rw [if_pos h]
+    have h0 : 0 ≤ z % 65536 := Int.emod_nonneg _ (by decide)
+    have h1 : z % 65536 < 65536 := Int.emod_lt_of_pos _ (by decide)
+    have e : (if z < 0 then z % 65536 else z) = (((z % 65536).toNat : Nat) : Int) := by split <;> omega
+    rw [e, numericOfInt_ext4_nat (by omega)]
+  · rw [if_neg h, if_neg (by omega), numericOfInt_big (by omega)]
 
-/-- `label + c` with a SIGNED constant: there is no reduction modulo `$10000`; above `$FFFF` the expression is
-rejected, below zero the result is a NEGATIVE number (`numericOfInt` has no lower bound) -/
-theorem addrCombine_plus_int (a : Nat) (c : Int) :
+/-- `a + c` (SIGNED operands, since B3 in the written order): above `$FFFF` the expression is rejected, otherwise
+the value is `(a + c) mod $10000` — a NEGATIVE sum is reduced modulo `$10000` (before B3 it stayed a negative
+number) -/
+theorem addrCombine_plus_int (a c : Int) :
     addrCombine '+' a c =
-      if (a : Int) + c ≤ 65535 then
-        .ok (.numeric ((a : Int) + c).natAbs (some 4) .extended (decide ((a : Int) + c < 0)))
-      else .diag := by
+      if a + c ≤ 65535 then .ok (.numeric ((a + c) % 65536).toNat (some 4) .extended false) else .diag := by
   unfold addrCombine
   simp only [beq_self_eq_true, if_true]
-  by_cases hle : (a : Int) + c ≤ 65535
-  · rw [if_pos hle, numericOfInt_ext4 hle]
-  · rw [if_neg hle, numericOfInt_big (by omega)]
+  exact wrapNumeric _
 
-/-- `label + c` whose value lies in `0 .. $FFFF` -/
-theorem addrCombine_plus_int_nonneg {a : Nat} {c : Int} (h0 : 0 ≤ (a : Int) + c) (h1 : (a : Int) + c ≤ 65535) :
-    addrCombine '+' a c = .ok (.numeric ((a : Int) + c).toNat (some 4) .extended false) := by
+/-- `a + c` whose value lies in `0 .. $FFFF` -/
+theorem addrCombine_plus_int_nonneg {a c : Int} (h0 : 0 ≤ a + c) (h1 : a + c ≤ 65535) :
+    addrCombine '+' a c = .ok (.numeric (a + c).toNat (some 4) .extended false) := by
   rw [addrCombine_plus_int, if_pos h1]
-  have h2 : ¬ ((a : Int) + c < 0) := by omega
-  have h3 : ((a : Int) + c).natAbs = ((a : Int) + c).toNat := by omega
-  simp [h2, h3]
+  have h3 : (a + c) % 65536 = a + c := by omega
+  rw [h3]
 
 theorem addrCombine_plus (a k : Nat) :
     addrCombine '+' a k = if a + k ≤ 65535 then .ok (.numeric (a + k) (some 4) .extended false) else .diag := by
@@ -113,137 +123,172 @@ theorem addrCombine_plus (a k : Nat) :
     congr 2
   · rw [if_neg hle, addrCombine_plus_int, if_neg (by omega)]
 
-/-- `label - c` with a SIGNED constant is computed modulo `$10000` (after the repair): the result is never
-negative -/
-theorem addrCombine_minus_int (a : Nat) (c : Int) :
-    addrCombine '-' a c = .ok (.numeric (((a : Int) - c) % 65536).toNat (some 4) .extended false) := by
+/-- the sum does not depend on the order of the operands -/
+theorem addrCombine_plus_comm (a c : Int) : addrCombine '+' a c = addrCombine '+' c a := by
+  rw [addrCombine_plus_int, addrCombine_plus_int, Int.add_comm]
+
+/-- `a - c` (SIGNED operands, in the written order): above `$FFFF` rejected (since B3; `label - N` with a negative
+`N` can exceed `$FFFF`), otherwise the value is `(a - c) mod $10000` -/
+theorem addrCombine_minus_int (a c : Int) :
+    addrCombine '-' a c =
+      if a - c ≤ 65535 then .ok (.numeric ((a - c) % 65536).toNat (some 4) .extended false) else .diag := by
   unfold addrCombine
   simp only [show ('-' == '+') = false from rfl, Bool.false_eq_true, if_false, beq_self_eq_true, if_true]
-  have h0 : 0 ≤ ((a : Int) - c) % 65536 := Int.emod_nonneg _ (by decide)
-  have h1 : ((a : Int) - c) % 65536 < 65536 := Int.emod_lt_of_pos _ (by decide)
-  rw [numericOfInt_ext4 (by omega)]
-  have h2 : ¬ (((a : Int) - c) % 65536 < 0) := by omega
-  have h3 : (((a : Int) - c) % 65536).natAbs = (((a : Int) - c) % 65536).toNat := by omega
-  simp [h2, h3]
+  exact wrapNumeric _
 
-/-- `label - k` is computed modulo `$10000` (after the repair): the result is never negative -/
-theorem addrCombine_minus (a k : Nat) :
-    addrCombine '-' a k = .ok (.numeric (((a : Int) - k) % 65536).toNat (some 4) .extended false) :=
-  addrCombine_minus_int a k
+/-- `label - k` with an unsigned `k` and a label inside the 64K space: never rejected, the value modulo `$10000` -/
+theorem addrCombine_minus {a : Nat} (k : Nat) (ha : a ≤ 65535) :
+    addrCombine '-' a k = .ok (.numeric (((a : Int) - k) % 65536).toNat (some 4) .extended false) := by
+  rw [addrCombine_minus_int, if_pos (by omega)]
 
 /-- the arithmetic core of the relocation of `label ± c` (SIGNED `c`): when the value in the original layout is
-a non-negative number `z` with `z + D ≤ $FFFF`, the value in the moved layout is `z + D` -/
-theorem addrCombine_reloc_num {D a : Nat} {c : Int} {op : Char} (hop : op = '+' ∨ op = '-')
+`z` with `z + D ≤ $FFFF`, the value in the moved layout is `z + D` -/
+theorem addrCombine_reloc_num {D : Nat} {a c : Int} {op : Char} (hop : op = '+' ∨ op = '-')
     (hb : ∀ v, addrCombine op a c = .ok v → ∃ z, v = .numeric z (some 4) .extended false ∧ z + D ≤ 65535) :
     addrCombine op (a + D) c = (addrCombine op a c).map (shiftV D) := by
   rcases hop with rfl | rfl
   · rw [addrCombine_plus_int] at hb ⊢
     rw [addrCombine_plus_int]
-    by_cases h1 : (a : Int) + c ≤ 65535
+    by_cases h1 : a + c ≤ 65535
     · rw [if_pos h1] at hb
       obtain ⟨z, hz, hzD⟩ := hb _ rfl
-      simp only [Value.numeric.injEq, true_and, decide_eq_false_iff_not] at hz
-      obtain ⟨hz1, hz2⟩ := hz
+      simp only [Value.numeric.injEq, and_true] at hz
       rw [if_pos h1, if_pos (by omega)]
       simp only [Outcome.map_ok, shiftV_numeric]
-      have e1 : (((a + D : Nat) : Int) + c).natAbs = ((a : Int) + c).natAbs + D := by omega
-      have e2 : decide (((a + D : Nat) : Int) + c < 0) = false := by simp; omega
-      have e3 : decide ((a : Int) + c < 0) = false := by simp; omega
-      rw [e1, e2, e3]
+      congr 2
+      omega
     · rw [if_neg h1, if_neg (by omega)]; rfl
   · rw [addrCombine_minus_int] at hb ⊢
     rw [addrCombine_minus_int]
-    obtain ⟨z, hz, hzD⟩ := hb _ rfl
-    simp only [Value.numeric.injEq, and_true] at hz
-    simp only [Outcome.map_ok, shiftV_numeric]
-    congr 2
-    omega
+    by_cases h1 : a - c ≤ 65535
+    · rw [if_pos h1] at hb
+      obtain ⟨z, hz, hzD⟩ := hb _ rfl
+      simp only [Value.numeric.injEq, and_true] at hz
+      rw [if_pos h1, if_pos (by omega)]
+      simp only [Outcome.map_ok, shiftV_numeric]
+      congr 2
+      omega
+    · rw [if_neg h1, if_neg (by omega)]; rfl
 
-/-- `label + c`, `label - c` (the other operand is a number, SIGNED since repair batch B2: the constant is
-`signedK k nn`): the value moves by `D`, provided the original value is not negative and the moved result still
-fits 16 bits -/
+/-- where the label of `label ± number` may stand: since B3 the operands are combined IN THE WRITTEN ORDER, so the
+label is the LEFT operand, or the operator is `+` (`number - label` is a different thing: it moves by MINUS `D`) -/
+def LabelSide (l r : Value) (op : Char) : Prop := l.isAddress = true ∨ (r.isAddress = true ∧ op = '+')
+
+/-- the label operand of `label ± number` -/
+theorem LabelSide.isAddress {l r : Value} {op : Char} (h : LabelSide l r op) :
+    (if l.isAddress then l else r).isAddress = true := by
+  rcases h with h | ⟨h, _⟩
+  · rw [if_pos h]; exact h
+  · split <;> assumption
+
+/-- `calculate_address_offset` on `label ± number` / `number + label`: the label's address `a` and the SIGNED
+constant `c` give `addrCombine op a c` -/
+theorem addrOffset_label_num (ss : List Stmt) {l r : Value} {op : Char} (m : Mode) (ae : Bool)
+    {k : Nat} {hh : Option Nat} {mm : Mode} {nn : Bool}
+    (hother : (if l.isAddress then r else l) = .numeric k hh mm nn) (hside : LabelSide l r op) :
+    addrOffset ss (.expr l r op m ae) =
+      (match addrOperand ss (if l.isAddress then l else r) with
+       | .ok a => addrCombine op a (signedK k nn)
+       | .diag => .diag | .internal => .internal | .diverged => .diverged) := by
+  rw [addrOffset_expr]
+  by_cases hl : l.isAddress = true
+  · rw [if_pos hl] at hother ⊢
+    subst hother
+    simp only [addrOperand_numeric_signed]
+    cases addrOperand ss l <;> rfl
+  · rw [if_neg hl] at hother ⊢
+    subst hother
+    rcases hside with h | ⟨_, rfl⟩
+    · exact absurd h hl
+    · simp only [addrOperand_numeric_signed]
+      cases addrOperand ss r with
+      | ok a => exact addrCombine_plus_comm _ _
+      | _ => rfl
+
+/-- `label + c`, `label - c`, `c + label` (the other operand is a number, SIGNED since repair batch B2: the constant
+is `signedK k nn`): the value moves by `D`, provided the moved result still fits 16 bits.  Since B3 a negative
+result is reduced modulo `$10000` for `+` as well, so the bound `z + D ≤ $FFFF` is about the reduced value. -/
 theorem addrOffset_reloc_num {D : Nat} {as as' : List Stmt} (h : PW (AddrShiftI D) as as')
     (l r : Value) (op : Char) (m : Mode) (ae : Bool) {k : Nat} {hh : Option Nat} {mm : Mode} {nn : Bool}
     (hother : (if l.isAddress then r else l) = .numeric k hh mm nn) (hop : op = '+' ∨ op = '-')
+    (hside : LabelSide l r op)
     (hb : ∀ v, addrOffset as (.expr l r op m ae) = .ok v →
       ∃ z, v = .numeric z (some 4) .extended false ∧ z + D ≤ 65535) :
     addrOffset as' (.expr l r op m ae) = (addrOffset as (.expr l r op m ae)).map (shiftV D) := by
-  rw [addrOffset_expr] at hb
-  rw [addrOffset_expr, addrOffset_expr]
-  rw [hother] at hb ⊢
-  simp only [addrOther_numeric_signed] at hb ⊢
-  cases hi : (if l.isAddress = true then l.int? else r.int?) with
-  | none => rfl
-  | some ai =>
-    rw [hi] at hb
-    dsimp only at hb ⊢
-    rw [addrIntOf_reloc h]
-    cases ha : addrIntOf as ai with
-    | none => rfl
-    | some a =>
-      rw [ha] at hb
-      dsimp only [Option.map] at hb ⊢
-      exact addrCombine_reloc_num hop hb
+  rw [addrOffset_label_num as m ae hother hside] at hb ⊢
+  rw [addrOffset_label_num as' m ae hother hside, addrOperand_reloc h, hside.isAddress]
+  cases ha : addrOperand as (if l.isAddress then l else r) with
+  | ok a =>
+    rw [ha] at hb
+    exact addrCombine_reloc_num hop hb
+  | _ => rfl
 
 /-- move a numeric value by `D` modulo `$10000` -/
 def shiftVmod (D : Nat) : Value → Value
   | .numeric a h m n => .numeric ((a + D) % 65536) h m n
   | v => v
 
-theorem addrCombine_minus_shift_int (a D : Nat) (c : Int) :
-    addrCombine '-' (a + D) c = (addrCombine '-' a c).map (shiftVmod D) := by
-  rw [addrCombine_minus_int, addrCombine_minus_int]
-  simp only [Outcome.map_ok, shiftVmod]
-  congr 2
-  omega
+/-- `a ± c` accepted in the moved layout (`a ± c + D ≤ $FFFF`): accepted in the original one as well, and the value
+moves by `D` modulo `$10000` -/
+theorem addrCombine_shift_mod {a c : Int} {D : Nat} {op : Char} (hop : op = '+' ∨ op = '-')
+    (h : (if op = '+' then a + c else a - c) + D ≤ 65535) :
+    addrCombine op (a + D) c = (addrCombine op a c).map (shiftVmod D) := by
+  rcases hop with rfl | rfl
+  · rw [if_pos rfl] at h
+    rw [addrCombine_plus_int, addrCombine_plus_int, if_pos (by omega), if_pos (by omega)]
+    simp only [Outcome.map_ok, shiftVmod]
+    congr 2
+    omega
+  · rw [if_neg (by decide)] at h
+    rw [addrCombine_minus_int, addrCombine_minus_int, if_pos (by omega), if_pos (by omega)]
+    simp only [Outcome.map_ok, shiftVmod]
+    congr 2
+    omega
 
-theorem addrCombine_minus_shift (a k D : Nat) :
-    addrCombine '-' (a + D) k = (addrCombine '-' a k).map (shiftVmod D) :=
-  addrCombine_minus_shift_int a D k
+theorem addrCombine_minus_shift_int (a c : Int) (D : Nat) (h : a - c + D ≤ 65535) :
+    addrCombine '-' (a + D) c = (addrCombine '-' a c).map (shiftVmod D) :=
+  addrCombine_shift_mod (.inr rfl) (by rw [if_neg (by decide)]; exact h)
 
-/-- `label - c` (SIGNED `c`), unconditionally: the value moves by `D` modulo `$10000` (the subtraction is itself
-computed modulo `$10000`) -/
-theorem addrOffset_reloc_minus_mod {D : Nat} {as as' : List Stmt} (h : PW (AddrShiftI D) as as')
-    (l r : Value) (m : Mode) (ae : Bool) {k : Nat} {hh : Option Nat} {mm : Mode} {nn : Bool}
-    (hother : (if l.isAddress then r else l) = .numeric k hh mm nn) :
-    addrOffset as' (.expr l r '-' m ae) = (addrOffset as (.expr l r '-' m ae)).map (shiftVmod D) := by
-  rw [addrOffset_expr, addrOffset_expr, hother]
-  simp only [addrOther_numeric_signed]
-  cases (if l.isAddress = true then l.int? else r.int?) with
-  | none => rfl
-  | some ai =>
-    dsimp only
-    rw [addrIntOf_reloc h]
-    cases addrIntOf as ai with
-    | none => rfl
-    | some a =>
-      dsimp only [Option.map]
-      exact addrCombine_minus_shift_int a D _
+theorem addrCombine_plus_shift_int (a c : Int) (D : Nat) (h : a + c + D ≤ 65535) :
+    addrCombine '+' (a + D) c = (addrCombine '+' a c).map (shiftVmod D) :=
+  addrCombine_shift_mod (.inl rfl) (by rw [if_pos rfl]; exact h)
+
+/-- `label ± c` (SIGNED `c`) that the MOVED layout accepts: the value moves by `D` modulo `$10000` (since B3 both
+operators reduce a negative result modulo `$10000` and reject one above `$FFFF`; before, only `label - c` was
+reduced, and unconditionally) -/
+theorem addrOffset_reloc_mod {D : Nat} {as as' : List Stmt} (h : PW (AddrShiftI D) as as')
+    (l r : Value) (op : Char) (m : Mode) (ae : Bool) {k : Nat} {hh : Option Nat} {mm : Mode} {nn : Bool}
+    (hother : (if l.isAddress then r else l) = .numeric k hh mm nn) (hop : op = '+' ∨ op = '-')
+    (hside : LabelSide l r op)
+    (hacc : ∀ a, addrOperand as (if l.isAddress then l else r) = .ok a →
+      (if op = '+' then a + signedK k nn else a - signedK k nn) + D ≤ 65535) :
+    addrOffset as' (.expr l r op m ae) = (addrOffset as (.expr l r op m ae)).map (shiftVmod D) := by
+  rw [addrOffset_label_num as m ae hother hside, addrOffset_label_num as' m ae hother hside,
+    addrOperand_reloc h, hside.isAddress]
+  cases ha : addrOperand as (if l.isAddress then l else r) with
+  | ok a => exact addrCombine_shift_mod hop (hacc a ha)
+  | _ => rfl
 
 /-- `label - label`: the difference of two addresses does not move -/
 theorem addrOffset_reloc_diff {D : Nat} {as as' : List Stmt} (h : PW (AddrShiftI D) as as')
     (l r : Value) (m : Mode) (ae : Bool) (hother : (if l.isAddress then r else l).isAddress = true) :
     addrOffset as' (.expr l r '-' m ae) = addrOffset as (.expr l r '-' m ae) := by
-  rw [addrOffset_expr, addrOffset_expr, addrOther_reloc h]
-  simp only [hother, if_true]
-  cases addrOther as (if l.isAddress = true then r else l) with
-  | ok b =>
-    simp only [Outcome.map_ok]
-    cases (if l.isAddress = true then l.int? else r.int?) with
-    | none => rfl
-    | some ai =>
-      dsimp only
-      rw [addrIntOf_reloc h]
-      cases addrIntOf as ai with
-      | none => rfl
-      | some a =>
-        dsimp only [Option.map]
-        rw [addrCombine_minus_int, addrCombine_minus_int]
-        have e1 : ((a + D : Nat) : Int) - (b + (D : Int)) = (a : Int) - b := by omega
-        rw [e1]
-  | diag => rfl
-  | internal => cases (if l.isAddress = true then l.int? else r.int?) <;> rfl
-  | diverged => cases (if l.isAddress = true then l.int? else r.int?) <;> rfl
+  have hl : l.isAddress = true := by
+    by_cases hl : l.isAddress = true
+    · exact hl
+    · rw [if_neg hl] at hother; exact hother
+  have hr : r.isAddress = true := by rw [if_pos hl] at hother; exact hother
+  rw [addrOffset_expr, addrOffset_expr, addrOperand_reloc h l, addrOperand_reloc h r]
+  simp only [hl, hr, if_true]
+  cases addrOperand as l with
+  | ok a =>
+    cases addrOperand as r with
+    | ok b =>
+      simp only [Outcome.map_ok]
+      have e1 : a + (D : Int) - (b + (D : Int)) = a - b := by omega
+      rw [addrCombine_minus_int, addrCombine_minus_int, e1]
+    | _ => rfl
+  | _ => rfl
 
 /-! ### the three parts of `fixOne` for non-relative statements -/
 
@@ -251,12 +296,13 @@ theorem addrOffset_reloc_diff {D : Nat} {as as' : List Stmt} (h : PW (AddrShiftI
 theorem fixPart1_reloc_num {D : Nat} {as as' : List Stmt} (h : PW (AddrShiftI D) as as') (s : Stmt)
     (l r : Value) (op : Char) (m : Mode) {k : Nat} {hh : Option Nat} {mm : Mode} {nn : Bool}
     (hother : (if l.isAddress then r else l) = .numeric k hh mm nn) (hop : op = '+' ∨ op = '-')
+    (hside : LabelSide l r op)
     (hb : ∀ v, addrOffset as (.expr l r op m true) = .ok v →
       ∃ z, v = .numeric z (some 4) .extended false ∧ z + D ≤ 65535) :
     fixPart1 as' s (.expr l r op m true) = (fixPart1 as s (.expr l r op m true)).map (Stmt.shiftAdditional D) := by
   unfold fixPart1
   simp only [Value.isAddrExpr, if_true]
-  rw [addrOffset_reloc_num h l r op m true hother hop hb]
+  rw [addrOffset_reloc_num h l r op m true hother hop hside hb]
   cases addrOffset as (.expr l r op m true) <;> rfl
 
 /-- part 1, `label - label` -/
@@ -355,11 +401,12 @@ theorem fixRelTarget_reloc_num {D : Nat} {as as' : List Stmt} (h : PW (AddrShift
     {l r : Value} {op : Char} {m : Mode} {k : Nat} {hh : Option Nat} {mm : Mode} {nn : Bool}
     (hidx : s2.isIdx = true) (he : s2.pkg.additional = .expr l r op m true)
     (hother : (if l.isAddress then r else l) = .numeric k hh mm nn) (hop : op = '+' ∨ op = '-')
+    (hside : LabelSide l r op)
     (hb : ∀ v, addrOffset as (.expr l r op m true) = .ok v →
       ∃ z, v = .numeric z (some 4) .extended false ∧ z + D ≤ 65535) :
     fixRelTarget as' s2 = (fixRelTarget as s2).map (· + D) := by
   rw [fixRelTarget_expr _ _ hidx he, fixRelTarget_expr _ _ hidx he,
-    addrOffset_reloc_num h l r op m true hother hop hb]
+    addrOffset_reloc_num h l r op m true hother hop hside hb]
   cases ho : addrOffset as (.expr l r op m true) with
   | ok v =>
     obtain ⟨z, rfl, _⟩ := hb v ho
@@ -373,13 +420,14 @@ theorem fixRelTarget_reloc_diff {D : Nat} {as as' : List Stmt} (h : PW (AddrShif
     fixRelTarget as' s2 = fixRelTarget as s2 := by
   rw [fixRelTarget_expr _ _ hidx he, fixRelTarget_expr _ _ hidx he, addrOffset_reloc_diff h l r m true hother]
 
-/-- part 3 (PCR): when the target moves by `D`, the displacement is IDENTICAL -/
+/-- part 3 (PCR: `needsRes` with post byte choices): when the target moves by `D`, the displacement is IDENTICAL -/
 theorem fixPart3_reloc_of_target {D : Nat} {as as' : List Stmt} (h : PW (AddrShiftI D) as as') (i : Nat) (s2 : Stmt)
+    (hc : s2.pkg.choices.isEmpty = false)
     (ht : fixRelTarget as' s2 = (fixRelTarget as s2).map (· + D)) :
     fixPart3 as' i s2 = fixPart3 as i s2 := by
   unfold fixPart3
   split
-  · rw [ht, addrIntOf_reloc h]
+  · rw [if_neg (by simp [hc]), if_neg (by simp [hc]), ht, addrIntOf_reloc h]
     cases fixRelTarget as s2 with
     | ok r =>
       cases addrIntOf as i with
@@ -392,6 +440,65 @@ theorem fixPart3_reloc_of_target {D : Nat} {as as' : List Stmt} (h : PW (AddrShi
     | internal => cases addrIntOf as i <;> rfl
     | diverged => cases addrIntOf as i <;> rfl
   · rfl
+
+/-- part 3 (PCR), a target that moves by `D` MODULO `$10000` (a negative `label + N`, reduced modulo `$10000` by
+`calculate_address_offset` since B3): the displacement is computed modulo `$10000` as well, so it is still IDENTICAL -/
+theorem fixPart3_reloc_of_target_mod {D : Nat} {as as' : List Stmt} (h : PW (AddrShiftI D) as as') (i : Nat) (s2 : Stmt)
+    (hc : s2.pkg.choices.isEmpty = false)
+    (ht : fixRelTarget as' s2 = (fixRelTarget as s2).map (fun x => (x + D) % 65536)) :
+    fixPart3 as' i s2 = fixPart3 as i s2 := by
+  unfold fixPart3
+  split
+  · rw [if_neg (by simp [hc]), if_neg (by simp [hc]), ht, addrIntOf_reloc h]
+    cases fixRelTarget as s2 with
+    | ok r =>
+      cases addrIntOf as i with
+      | none => rfl
+      | some start =>
+        have e : ((((r + D) % 65536 : Nat) : Int) - ((start + D : Nat) : Int) - (s2.pkg.size : Int) + 0x8000) % 0x10000
+            = ((r : Int) - (start : Int) - (s2.pkg.size : Int) + 0x8000) % 0x10000 := by omega
+        simp only [Outcome.map_ok, Option.map_some, e]
+    | diag => rfl
+    | internal => cases addrIntOf as i <;> rfl
+    | diverged => cases addrIntOf as i <;> rfl
+  · rfl
+
+/-- part 3 (repair batch B3) of a `needsRes` statement WITHOUT post byte choices — a label as constant offset of a
+pointer register (`LDA TABLE,X`): the target address itself becomes the 16-bit offset -/
+theorem fixPart3_abs (ss : List Stmt) (i : Nat) {s2 : Stmt} (hn : s2.pkg.needsRes = true)
+    (hc : s2.pkg.choices.isEmpty = true) : fixPart3 ss i s2 = fixPartAbs ss s2 := by
+  unfold fixPart3; rw [if_pos hn, if_pos hc]
+
+/-- the absolute offset in closed form -/
+theorem fixPartAbs_eq (ss : List Stmt) (s2 : Stmt) :
+    fixPartAbs ss s2 =
+      (match fixRelTarget ss s2 with
+       | .ok r => if r ≤ 65535 then .ok { s2 with pkg := { s2.pkg with additional := .numeric r (some 4) .extended false } }
+                  else .internal
+       | .diag => .diag | .internal => .internal | .diverged => .internal) := by
+  unfold fixPartAbs
+  cases fixRelTarget ss s2 with
+  | ok r =>
+    dsimp only
+    by_cases hr : r ≤ 65535
+    · rw [if_pos hr, numericOfInt_nat hr 4]
+    · rw [if_neg hr, numericOfInt_big (by omega)]
+  | _ => rfl
+
+/-- part 3 (absolute offset): when the target moves by `D` and stays inside the 64K space, the stored 16-bit offset
+moves by `D` -/
+theorem fixPartAbs_reloc_of_target {D : Nat} {as as' : List Stmt} (s2 : Stmt)
+    (ht : fixRelTarget as' s2 = (fixRelTarget as s2).map (· + D))
+    (hb : ∀ r, fixRelTarget as s2 = .ok r → r + D ≤ 65535) :
+    fixPartAbs as' s2 = (fixPartAbs as s2).map (Stmt.shiftAdditional D) := by
+  rw [fixPartAbs_eq, fixPartAbs_eq, ht]
+  cases hr : fixRelTarget as s2 with
+  | ok r =>
+    have := hb r hr
+    simp only [Outcome.map_ok]
+    rw [if_pos (by omega), if_pos (by omega)]
+    rfl
+  | _ => rfl
 
 theorem fixPart3_noRes (ss : List Stmt) (i : Nat) {s2 : Stmt} (hn : s2.pkg.needsRes = false) :
     fixPart3 ss i s2 = .ok s2 := by
